@@ -1,6 +1,689 @@
-pub fn gen(_seed: u64, _thorough: bool) -> Vec<String> {
-    vec![]
+//! C17 — progress only moves forward to 100 % and cancellation is honoured.
+//!
+//! Case line
+//!   run API FORMAT W H COLOR DITH QUALITY MIPS PAR THREADS ORDER REPORTER CANCEL SEED nf=N
+//!     nf=N      number of fragments `SplitView::new` cuts the level-0 surface into (checked against
+//!               the implementation and against the model; identifies the code path in the case line)
+//!     API       E = `Encoder::write_surface_with_progress`, F = free function `dds::encode`
+//!     MIPS      0/1: declare a full mip chain and let the encoder generate it (E only)
+//!     PAR       0/1: `EncodeOptions.parallel`
+//!     THREADS   size of the rayon pool the call runs in
+//!     ORDER     nat/rev/rnd/free: fragment completion order imposed through the `dds_verif` hook
+//!     REPORTER  mt = `Progress::new` (Send closure), st = `Progress::new_single_threaded`
+//!     CANCEL    -  : never
+//!               pre: token cancelled before the call; afterwards reset and retry
+//!               kN : the reporter closure cancels the token when it receives report number N (0-based)
+//!               sweep: first an uncancelled run, then one run per report index k (all k, at most 96
+//!                      evenly spread) cancelling at k
+//!
+//! Result line (canonical, compared with the Lean model with 1e-6 slack on progress values):
+//!   -     : `<res> n=<reports> late=<bytes written after the first 1.0 report> seq=<f32 bits,...>`
+//!           when the sequence is schedule independent
+//!           `<res> n=<reports> last=<v> dif=<sorted successive differences of 0,r0,r1,.. as f32 bits>`
+//!           otherwise (the multiset of increments does not depend on the completion order: the
+//!           multi-fragment levels are a prefix of the levels and each ends with its range's end)
+//!   pre   : `<res> n=<reports> written=<bytes> retry=<res> n2=<reports>`
+//!   kN    : `<res> n=<reports>` (sequential) / `<res>` (parallel: later reports are schedule dependent)
+//!   sweep : `sweep n=<reports> cancelled=<runs that returned Cancelled> ok=<runs that returned Ok>`
+//!
+//! Oracle (on the recorded values of the implementation alone): every value within [0,1]; never
+//! decreasing by more than 1e-6; in a run in which cancellation is never requested the last value is
+//! exactly 1.0 iff the call returned Ok (both APIs; the free function on its sequential /
+//! single-fragment path is known finding F8); cancelling at a report below 100 % or before the call
+//! gives Err(Cancelled) (a request at a 1.0 report may give either outcome); a pre-cancelled call
+//! reports nothing, writes nothing, and succeeds when retried after `reset`.
+use crate::c14::*;
+use crate::common::*;
+use dds::*;
+use std::sync::{Arc, Mutex};
+
+pub fn err_name(e: &EncodingError) -> String {
+    let s = format!("{e:?}");
+    s.split(|c: char| !c.is_alphanumeric()).next().unwrap_or("?").to_string()
 }
-pub fn run(_line: &str) -> Option<(String, Vec<String>)> {
-    None
+
+#[derive(Clone, Copy, PartialEq, Eq, Debug)]
+pub enum Cancel {
+    Never,
+    Pre,
+    At(usize),
+    Sweep,
+}
+
+pub struct Case {
+    pub api_encoder: bool,
+    pub name: String,
+    pub format: Format,
+    pub w: u32,
+    pub h: u32,
+    pub color: ColorFormat,
+    pub opts: EncodeOptions,
+    pub mips: bool,
+    pub threads: usize,
+    pub order: Order,
+    pub mt: bool,
+    pub cancel: Cancel,
+    pub seed: u64,
+    /// number of fragments of the level-0 surface (`SplitView::new(..).len()`), part of the case line
+    /// so that the code path (sequential / single fragment / multi fragment) is visible in it
+    pub nf: u32,
+}
+
+pub fn parse(line: &str) -> Option<Option<Case>> {
+    let t = toks(line);
+    if t.len() != 16 || t[0] != "run" {
+        return None;
+    }
+    let nf: u32 = t[15].strip_prefix("nf=")?.parse().ok()?;
+    let api_encoder = match t[1] {
+        "E" => true,
+        "F" => false,
+        _ => return None,
+    };
+    let format = match parse_format(t[2]) {
+        Some(f) => f,
+        None => return Some(None),
+    };
+    let (w, h) = (p_u32(t[3])?, p_u32(t[4])?);
+    let color = parse_color(t[5])?;
+    let d = parse_dith(t[6])?;
+    let q = parse_quality(t[7])?;
+    let mips = match t[8] {
+        "0" => false,
+        "1" => true,
+        _ => return None,
+    };
+    let par = match t[9] {
+        "0" => false,
+        "1" => true,
+        _ => return None,
+    };
+    let threads = p_usize(t[10])?;
+    let order = parse_order(t[11])?;
+    let mt = match t[12] {
+        "mt" => true,
+        "st" => false,
+        _ => return None,
+    };
+    let cancel = match t[13] {
+        "-" => Cancel::Never,
+        "pre" => Cancel::Pre,
+        "sweep" => Cancel::Sweep,
+        s if s.starts_with('k') => Cancel::At(p_usize(&s[1..])?),
+        _ => return None,
+    };
+    let seed = p_u64(t[14])?;
+    if threads == 0 || threads > 64 || (mips && !api_encoder) || w as u64 * h as u64 > 1 << 24 {
+        return None;
+    }
+    Some(Some(Case {
+        api_encoder,
+        name: t[2].to_string(),
+        format,
+        w,
+        h,
+        color,
+        opts: options(d, q, ErrorMetric::Uniform, par),
+        mips,
+        threads,
+        order,
+        mt,
+        cancel,
+        seed,
+        nf,
+    }))
+}
+
+pub struct Outcome {
+    pub result: Result<(), EncodingError>,
+    pub reports: Vec<f32>,
+    /// bytes written by the call itself (the DDS header written by `Encoder::new` is not counted)
+    pub written: usize,
+    pub forced: usize,
+    pub timeouts: usize,
+    /// bytes written by the call after its first report of 1.0 (0 = 100 % only after the write-out)
+    pub late: usize,
+}
+
+struct Shared {
+    reports: Mutex<Vec<f32>>,
+    /// bytes counted when the first 1.0 report arrived
+    at100: Mutex<Option<usize>>,
+}
+
+/// sizes of the surfaces one call encodes (level 0 and, with generated mipmaps, all further levels)
+pub fn level_sizes(c: &Case) -> Vec<Size> {
+    let mut v = vec![Size::new(c.w, c.h)];
+    if c.mips {
+        let mut l = 1u8;
+        loop {
+            let prev = *v.last().unwrap();
+            if prev.width <= 1 && prev.height <= 1 {
+                break;
+            }
+            v.push(Size::new(c.w, c.h).get_mipmap(l));
+            l += 1;
+        }
+    }
+    v
+}
+
+/// fragment heights of every level (through the public `SplitView`), used only to size the
+/// scheduler and to decide which canonical form the result line takes
+pub fn level_fragments(c: &Case) -> Vec<Vec<u32>> {
+    let mut out = vec![];
+    for s in level_sizes(c) {
+        let data = vec![0u8; s.width as usize * s.height as usize];
+        let img = match ImageView::new(&data, s, ColorFormat::GRAYSCALE_U8) {
+            Some(i) => i,
+            None => {
+                out.push(vec![s.height]);
+                continue;
+            }
+        };
+        let sv = SplitView::new(img, c.format, &c.opts);
+        out.push((0..sv.len()).map(|i| sv.get(i).map(|f| f.height()).unwrap_or(0)).collect());
+    }
+    out
+}
+
+struct CountW(Arc<std::sync::atomic::AtomicUsize>);
+impl std::io::Write for CountW {
+    fn write(&mut self, buf: &[u8]) -> std::io::Result<usize> {
+        self.0.fetch_add(buf.len(), std::sync::atomic::Ordering::SeqCst);
+        Ok(buf.len())
+    }
+    fn flush(&mut self) -> std::io::Result<()> {
+        Ok(())
+    }
+}
+
+/// One call of the API under test with a recording reporter and a cancellation token; with `retry`
+/// the token is reset afterwards and the same call is made again (second outcome).
+pub fn execute(c: &Case, data: &[u8], pre_cancel: bool, cancel_at: Option<usize>, retry: bool) -> Vec<Outcome> {
+    use std::sync::atomic::Ordering::SeqCst;
+    let image = ImageView::new(data, Size::new(c.w, c.h), c.color).expect("image");
+    let token = CancellationToken::new();
+    let shared = Arc::new(Shared { reports: Mutex::new(vec![]), at100: Mutex::new(None) });
+    let lens: Vec<usize> = if c.opts.parallel {
+        level_fragments(c).iter().map(|f| f.len()).filter(|&n| n > 1).collect()
+    } else {
+        vec![]
+    };
+    let strict = c.mt && cancel_at.is_none() && !pre_cancel;
+    let sched = Sched::new(&lens, c.threads, c.order, c.seed, strict);
+
+    let count = Arc::new(std::sync::atomic::AtomicUsize::new(0));
+    let tok2 = token.clone();
+    let sh2 = shared.clone();
+    let sc2 = sched.clone();
+    let cnt2 = count.clone();
+    let mut record = move |p: f32| {
+        if p == 1.0 {
+            let mut a = sh2.at100.lock().unwrap_or_else(|e| e.into_inner());
+            if a.is_none() {
+                *a = Some(cnt2.load(SeqCst));
+            }
+        }
+        let idx = {
+            let mut g = sh2.reports.lock().unwrap_or_else(|e| e.into_inner());
+            g.push(p);
+            g.len() - 1
+        };
+        if Some(idx) == cancel_at {
+            tok2.cancel();
+            sc2.open();
+        }
+        sc2.note_submit();
+    };
+    let take = |shared: &Arc<Shared>| std::mem::take(&mut *shared.reports.lock().unwrap_or_else(|e| e.into_inner()));
+
+    let mut writer = CountW(count.clone());
+    let late = |shared: &Arc<Shared>, now: usize| {
+        shared.at100.lock().unwrap_or_else(|e| e.into_inner()).take().map(|a| now - a).unwrap_or(0)
+    };
+    if pre_cancel {
+        token.cancel();
+    }
+    let mut out = vec![];
+    if c.api_encoder {
+        let mut encoder = match Encoder::new_image(&mut writer, Size::new(c.w, c.h), c.format, c.mips) {
+            Ok(e) => e,
+            Err(e) => return vec![Outcome { result: Err(e), reports: vec![], written: 0, forced: 0, timeouts: 0, late: 0 }],
+        };
+        encoder.options = c.opts.clone();
+        encoder.mipmaps.generate = c.mips;
+        for attempt in 0..(1 + retry as usize) {
+            if attempt == 1 {
+                token.reset();
+            }
+            let before = count.load(SeqCst);
+            let result = with_hook(&sched, || {
+                pool(c.threads).install(|| {
+                    let mut progress = if c.mt {
+                        Progress::new(&mut record)
+                    } else {
+                        Progress::new_single_threaded(&mut record)
+                    }
+                    .with_cancellation(&token);
+                    encoder.write_surface_with_progress(image, &mut progress)
+                })
+            });
+            let (forced, timeouts) = sched.stats();
+            out.push(Outcome { result, reports: take(&shared), written: count.load(SeqCst) - before, forced, timeouts, late: late(&shared, count.load(SeqCst)) });
+        }
+    } else {
+        for attempt in 0..(1 + retry as usize) {
+            if attempt == 1 {
+                token.reset();
+            }
+            let before = count.load(SeqCst);
+            let result = with_hook(&sched, || {
+                pool(c.threads).install(|| {
+                    let mut progress = if c.mt {
+                        Progress::new(&mut record)
+                    } else {
+                        Progress::new_single_threaded(&mut record)
+                    }
+                    .with_cancellation(&token);
+                    encode(&mut writer, image, c.format, Some(&mut progress), &c.opts)
+                })
+            });
+            let (forced, timeouts) = sched.stats();
+            out.push(Outcome { result, reports: take(&shared), written: count.load(SeqCst) - before, forced, timeouts, late: late(&shared, count.load(SeqCst)) });
+        }
+    }
+    out
+}
+
+fn res_name(r: &Result<(), EncodingError>) -> String {
+    match r {
+        Ok(()) => "ok".into(),
+        Err(EncodingError::Cancelled) => "cancelled".into(),
+        Err(e) => format!("err:{}", err_name(e)),
+    }
+}
+
+fn bits(v: &[f32]) -> String {
+    v.iter().map(|x| format!("{:08x}", x.to_bits())).collect::<Vec<_>>().join(",")
+}
+
+const SLACK: f32 = 1e-6;
+
+/// the property's clauses that concern one recorded run
+fn check_sequence(tag: &str, c: &Case, o: &Outcome, pre_cancelled: bool, cancel_at: Option<usize>, orc: &mut Vec<String>) {
+    let r = &o.reports;
+    for (i, &p) in r.iter().enumerate() {
+        if !(p >= 0.0 && p <= 1.0) {
+            orc.push(format!("{tag}: report {i} = {p:e} is outside [0,1]"));
+            break;
+        }
+    }
+    for i in 1..r.len() {
+        if r[i] < r[i - 1] - SLACK {
+            orc.push(format!(
+                "{tag}: progress decreased at report {i}: {:e} after {:e} (bits {:08x} after {:08x})",
+                r[i],
+                r[i - 1],
+                r[i].to_bits(),
+                r[i - 1].to_bits()
+            ));
+            break;
+        }
+    }
+    // "ends with 1.0 exactly when the call succeeds" is about runs in which cancellation is never
+    // requested (a request at a 1.0 report may legitimately give either outcome)
+    let requested = pre_cancelled || cancel_at.map(|k| k < r.len()).unwrap_or(false);
+    let ends_100 = r.last().map(|&p| p == 1.0).unwrap_or(false);
+    if !requested {
+        if o.result.is_ok() && !ends_100 {
+            let last = r.last().map(|p| format!("{p:e}")).unwrap_or("none".into());
+            if c.api_encoder {
+                orc.push(format!("{tag}: call succeeded but the last report is {last}, not 1.0"));
+            } else {
+                orc.push(format!("free encode returned Ok without a final 1.0 report (last={last})"));
+            }
+        }
+        if o.result.is_err() && ends_100 {
+            orc.push(format!("{tag}: call failed ({}) after reporting 1.0", res_name(&o.result)));
+        }
+    }
+    if o.timeouts > 0 {
+        // not a property failure; visible in the evidence through the result line only if it changes a result
+    }
+}
+
+fn n_fragments(name: &str, w: u32, h: u32, d: &str, q: &str) -> u32 {
+    let f = parse_format(name).unwrap();
+    let data = vec![0u8; w as usize * h as usize];
+    let img = ImageView::new(&data, Size::new(w, h), ColorFormat::GRAYSCALE_U8).unwrap();
+    let o = options(parse_dith(d).unwrap(), parse_quality(q).unwrap(), ErrorMetric::Uniform, true);
+    SplitView::new(img, f, &o).len()
+}
+
+/// (format, color, dithering, quality): one entry per encoder function / pick_encoder branch
+const SHAPES: &[(&str, &str, &str, &str)] = &[
+    // copy_directly
+    ("R8G8B8A8_UNORM", "rgba8", "none", "fast"),
+    ("R32G32B32A32_FLOAT", "rgba32", "all", "fast"),
+    ("R16_UNORM", "g16", "color", "fast"),
+    // uncompressed_untyped
+    ("R8G8B8A8_UNORM", "rgb8", "none", "fast"),
+    ("B8G8R8A8_UNORM", "rgba8", "all", "fast"),
+    ("R8G8B8A8_SNORM", "g8", "none", "fast"),
+    ("R32G32B32_FLOAT", "g32", "none", "fast"),
+    // uncompressed_universal
+    ("R8G8B8A8_UNORM", "rgba32", "none", "fast"),
+    ("B5G6R5_UNORM", "rgba8", "none", "fast"),
+    ("R16G16B16A16_FLOAT", "rgba8", "all", "fast"),
+    ("R9G9B9E5_SHAREDEXP", "g8", "color", "fast"),
+    ("AYUV", "rgb16", "none", "fast"),
+    // uncompressed_universal_dither
+    ("B5G6R5_UNORM", "rgba8", "color", "fast"),
+    ("R8G8B8A8_UNORM", "rgba32", "all", "fast"),
+    ("A8_UNORM", "rgba16", "alpha", "fast"),
+    ("R16G16B16A16_UNORM", "rgba32", "color", "fast"),
+    ("B4G4R4A4_UNORM", "g8", "alpha", "fast"),
+    ("R10G10B10A2_UNORM", "rgb8", "all", "fast"),
+    // sub-sampled
+    ("R1_UNORM", "g8", "none", "fast"),
+    ("R1_UNORM", "rgba8", "color", "fast"),
+    ("YUY2", "rgba8", "none", "fast"),
+    ("Y210", "rgb16", "none", "fast"),
+    ("R8G8_B8G8_UNORM", "rgb8", "all", "fast"),
+    // bi-planar
+    ("NV12", "rgba8", "none", "fast"),
+    ("P010", "rgb16", "none", "fast"),
+    // block compression
+    ("BC1_UNORM", "rgba8", "none", "fast"),
+    ("BC1_UNORM", "rgb8", "all", "normal"),
+    ("BC3_UNORM", "rgba8", "alpha", "fast"),
+    ("BC4_UNORM", "g8", "color", "fast"),
+    ("BC5_SNORM", "rgb16", "none", "normal"),
+    ("BC7_UNORM", "rgba8", "none", "fast"),
+    ("BC7_UNORM", "rgba32", "all", "fast"),
+    ("BC3_UNORM_RXGB", "rgba8", "color", "fast"),
+];
+
+fn size_mult(name: &str) -> (u32, u32) {
+    parse_format(name)
+        .and_then(|f| f.encoding_support())
+        .and_then(|s| s.size_multiple())
+        .map(|(a, b)| (a.get(), b.get()))
+        .unwrap_or((1, 1))
+}
+
+fn sizes_for(name: &str, q: &str, rng: &mut Rng, thorough: bool) -> Vec<(u32, u32)> {
+    let mut v: Vec<(u32, u32)> = vec![(0, 0), (1, 1), (4, 4), (5, 3), (16, 16), (33, 17), (64, 64)];
+    if is_bc(name) {
+        let t: u32 = if name.starts_with("BC7") {
+            256
+        } else if q == "fast" {
+            4096
+        } else if name.starts_with("BC4") || name.starts_with("BC5") {
+            2048
+        } else {
+            1024
+        };
+        // at the split threshold, two fragments, uneven last fragment, many fragments, wide
+        v.push((16, t / 16));
+        v.push((16, t / 16 + 1));
+        v.push((16, 2 * (t / 16)));
+        v.push((32, 3 * (t / 32) + 5));
+        v.push((24, 7 * ((t / 24) / 4 * 4) + 2));
+        v.push((20, 20 * ((t / 20) / 4 * 4)));
+        v.push((t + 9, 11));
+        v.push((128, 128));
+        v.push((rng.range(40, 90) as u32, rng.range(100, 300) as u32));
+        if thorough {
+            v.push((256, 256));
+            v.push((512, 260)); // > 8192 blocks: a second sequential report at Fast
+        }
+    } else {
+        v.push((3, 4100)); // many row chunks (dither / sub-sampled report frequency)
+        v.push((2, 8200));
+        v.push((700, 3));
+        v.push((rng.range(1, 200) as u32, rng.range(1, 200) as u32));
+    }
+    let (mw, mh) = size_mult(name);
+    for s in v.iter_mut() {
+        s.0 = s.0 / mw * mw;
+        s.1 = s.1 / mh * mh;
+    }
+    v.dedup();
+    v
+}
+
+pub fn gen(seed: u64, thorough: bool) -> Vec<String> {
+    let mut rng = Rng::new(seed);
+    let mut out = vec![];
+    let orders = ["nat", "rev", "rnd", "free"];
+    let mut k: usize = 0;
+    let mut push = |out: &mut Vec<String>,
+                    api: &str,
+                    sh: &(&str, &str, &str, &str),
+                    w: u32,
+                    h: u32,
+                    mips: bool,
+                    par: bool,
+                    rep: &str,
+                    cancel: String,
+                    k: &mut usize,
+                    rng: &mut Rng| {
+        *k += 1;
+        let th = 1 + (*k * 7) % 16;
+        let o = orders[(*k / 3) % 4];
+        let nf = n_fragments(sh.0, w, h, sh.2, sh.3);
+        out.push(format!(
+            "run {api} {} {w} {h} {} {} {} {} {} {th} {o} {rep} {cancel} {} nf={nf}",
+            sh.0,
+            sh.1,
+            sh.2,
+            sh.3,
+            mips as u8,
+            par as u8,
+            rng.below(1 << 30)
+        ));
+    };
+    // structured: every shape x sizes x API x mips x parallel x cancellation mode
+    for sh in SHAPES {
+        let (mw, mh) = size_mult(sh.0);
+        let can_mip = mw == 1 && mh == 1;
+        for (si, (w, h)) in sizes_for(sh.0, sh.3, &mut rng, thorough).into_iter().enumerate() {
+            let big = w as u64 * h as u64 > 20_000;
+            for api in ["E", "F"] {
+                if api == "E" && (w == 0 || h == 0) {
+                    continue; // a DDS header cannot declare an empty surface
+                }
+                for mips in [false, true] {
+                    if mips && (api == "F" || !can_mip || w == 0) {
+                        continue;
+                    }
+                    for par in [false, true] {
+                        if par && !is_bc(sh.0) && si % 3 != 0 {
+                            continue; // never split: one in three sizes is enough
+                        }
+                        let rep = if par && si % 4 == 1 { "st" } else { "mt" };
+                        push(&mut out, api, sh, w, h, mips, par, rep, "-".into(), &mut k, &mut rng);
+                        if !big || thorough {
+                            push(&mut out, api, sh, w, h, mips, par, rep, "pre".into(), &mut k, &mut rng);
+                        }
+                        if (!big && (si + k) % 2 == 0) || thorough {
+                            push(&mut out, api, sh, w, h, mips, par, "mt", "sweep".into(), &mut k, &mut rng);
+                        } else {
+                            let c = format!("k{}", rng.below(6));
+                            push(&mut out, api, sh, w, h, mips, par, "mt", c, &mut k, &mut rng);
+                        }
+                    }
+                }
+            }
+        }
+    }
+    // a few large surfaces so that every family reports more than once sequentially
+    let large: &[(&str, &str, &str, &str, u32, u32)] = &[
+        ("B5G6R5_UNORM", "g8", "none", "fast", 1100, 1000),     // universal: 2149 chunks
+        ("R8G8B8A8_UNORM", "rgb8", "none", "fast", 2100, 1000), // untyped: 2051 chunks
+        ("NV12", "g8", "none", "fast", 65536, 20),              // bi-planar: frequency 8, 10 groups
+        ("BC1_UNORM", "rgba8", "none", "fast", 512, 260),       // 8320 blocks
+        ("BC4_UNORM", "g8", "none", "normal", 256, 260),        // 4160 blocks, frequency 4096
+    ];
+    for l in large {
+        let sh = (l.0, l.1, l.2, l.3);
+        for (api, par, cancel) in [("E", false, "-"), ("F", false, "-"), ("E", true, "-"), ("E", false, "k1"), ("F", true, "k1")] {
+            push(&mut out, api, &sh, l.4, l.5, false, par, "mt", cancel.into(), &mut k, &mut rng);
+        }
+    }
+    let structured = std::mem::take(&mut out);
+    // PRNG: parallel BC encodes with every pool size / order, random cancellation points
+    let n_rand = if thorough { 30_000 } else { 6_000 };
+    let bc_shapes: Vec<&(&str, &str, &str, &str)> = SHAPES.iter().filter(|s| is_bc(s.0)).collect();
+    for _ in 0..n_rand {
+        let sh = **rng.pick(&bc_shapes);
+        let t: u64 = if sh.0.starts_with("BC7") { 256 } else if sh.3 == "fast" { 4096 } else { 1024 };
+        let w = rng.range(4, 70);
+        let fh = ((t / w) / 4 * 4).max(4);
+        let h = match rng.below(3) {
+            0 => fh * rng.range(2, 12),
+            1 => fh * rng.range(1, 12) + rng.range(1, fh - 1),
+            _ => rng.range(1, 4 * fh),
+        };
+        if w * h > 120_000 {
+            continue;
+        }
+        let api = if rng.chance(1, 2) { "E" } else { "F" };
+        let mips = api == "E" && rng.chance(1, 3);
+        let rep = if rng.chance(1, 8) { "st" } else { "mt" };
+        let cancel = match rng.below(4) {
+            0 => "-".to_string(),
+            1 => "pre".to_string(),
+            _ => format!("k{}", rng.below(14)),
+        };
+        push(&mut out, api, &sh, w as u32, h as u32, mips, true, rep, cancel, &mut k, &mut rng);
+    }
+    // interleave the two lists so that check.py's chunks balance
+    let random = out;
+    let mut out = Vec::with_capacity(structured.len() + random.len());
+    let (mut a, mut b) = (structured.into_iter().peekable(), random.into_iter().peekable());
+    while a.peek().is_some() || b.peek().is_some() {
+        if let Some(x) = a.next() {
+            out.push(x);
+        }
+        if let Some(x) = b.next() {
+            out.push(x);
+        }
+    }
+    out
+}
+
+pub fn run(line: &str) -> Option<(String, Vec<String>)> {
+    let c = match parse(line)? {
+        Some(c) => c,
+        None => return Some(("bad-case".into(), vec![])),
+    };
+    let data = make_image(c.w, c.h, c.color, c.seed);
+    ImageView::new(&data, Size::new(c.w, c.h), c.color)?;
+    let mut orc = vec![];
+    let frs = level_fragments(&c);
+    if frs[0].len() as u32 != c.nf {
+        return Some((format!("bad-nf impl={}", frs[0].len()), vec![]));
+    }
+    // is the report sequence independent of the completion order?
+    let order_free = !c.opts.parallel
+        || !c.mt
+        || frs.iter().all(|f| f.len() <= 1 || f.iter().all(|&x| x == f[0]));
+    match c.cancel {
+        Cancel::Never => {
+            let o = execute(&c, &data, false, None, false).remove(0);
+            check_sequence("run", &c, &o, false, None, &mut orc);
+            let n = o.reports.len();
+            let res = if order_free {
+                format!("{} n={n} late={} seq={}", res_name(&o.result), o.late, bits(&o.reports))
+            } else {
+                let mut with0 = vec![0.0f32];
+                with0.extend_from_slice(&o.reports);
+                let mut d: Vec<f32> = with0.windows(2).map(|w| w[1] - w[0]).collect();
+                d.sort_by(|a, b| a.partial_cmp(b).unwrap_or(std::cmp::Ordering::Equal));
+                let last: Vec<f32> = o.reports.last().copied().into_iter().collect();
+                format!("{} n={n} late={} last={} dif={}", res_name(&o.result), o.late, bits(&last), bits(&d))
+            };
+            Some((res, orc))
+        }
+        Cancel::Pre => {
+            let mut os = execute(&c, &data, true, None, true);
+            if os.len() != 2 {
+                let o = os.remove(0);
+                return Some((res_name(&o.result), orc));
+            }
+            let o2 = os.remove(1);
+            let o1 = os.remove(0);
+            check_sequence("pre-cancelled", &c, &o1, true, None, &mut orc);
+            check_sequence("retry", &c, &o2, false, None, &mut orc);
+            if !matches!(o1.result, Err(EncodingError::Cancelled)) {
+                orc.push(format!("token cancelled before the call, result {}", res_name(&o1.result)));
+            }
+            if !o1.reports.is_empty() {
+                orc.push(format!("pre-cancelled call made {} progress reports", o1.reports.len()));
+            }
+            if o2.result.is_err() {
+                orc.push(format!("retry after reset failed: {}", res_name(&o2.result)));
+            }
+            let written1 = o1.written;
+            if written1 != 0 {
+                orc.push(format!("pre-cancelled call wrote {written1} bytes"));
+            }
+            Some((
+                format!(
+                    "{} n={} written={written1} retry={} n2={}",
+                    res_name(&o1.result),
+                    o1.reports.len(),
+                    res_name(&o2.result),
+                    o2.reports.len()
+                ),
+                orc,
+            ))
+        }
+        Cancel::At(k) => {
+            let o = execute(&c, &data, false, Some(k), false).remove(0);
+            check_sequence("cancel", &c, &o, false, Some(k), &mut orc);
+            check_cancel_at(&c, k, &o, &mut orc);
+            let res = if !c.opts.parallel || !c.mt || frs.iter().all(|f| f.len() <= 1) {
+                format!("{} n={}", res_name(&o.result), o.reports.len())
+            } else {
+                res_name(&o.result)
+            };
+            Some((res, orc))
+        }
+        Cancel::Sweep => {
+            let o = execute(&c, &data, false, None, false).remove(0);
+            check_sequence("run", &c, &o, false, None, &mut orc);
+            let n = o.reports.len();
+            let ks: Vec<usize> = if n <= 96 { (0..n).collect() } else { (0..96).map(|i| i * (n - 1) / 95).collect() };
+            let (mut nc, mut nok) = (0, 0);
+            for k in ks {
+                let ok = execute(&c, &data, false, Some(k), false).remove(0);
+                check_sequence(&format!("cancel at {k}"), &c, &ok, false, Some(k), &mut orc);
+                check_cancel_at(&c, k, &ok, &mut orc);
+                match ok.result {
+                    Err(EncodingError::Cancelled) => nc += 1,
+                    Ok(()) => nok += 1,
+                    _ => {}
+                }
+                if orc.len() > 8 {
+                    break;
+                }
+            }
+            Some((format!("sweep {} n={n} cancelled={nc} ok={nok}", res_name(&o.result)), orc))
+        }
+    }
+}
+
+fn check_cancel_at(_c: &Case, k: usize, o: &Outcome, orc: &mut Vec<String>) {
+    if let Some(&p) = o.reports.get(k) {
+        if p < 1.0 && !matches!(o.result, Err(EncodingError::Cancelled)) {
+            orc.push(format!(
+                "cancelled at report {k} (value {p:e} < 1) but the call returned {}",
+                res_name(&o.result)
+            ));
+        }
+    }
 }
